@@ -1,4 +1,4 @@
-import MpVerif.C08.LemmasHistory
+import MpVerif.C08.LemmasGen
 /-!
 # C08 — property theorems
 
@@ -290,6 +290,119 @@ theorem C08_history_solution (pd0 : Pd) (ms : List MatrixModel) (m : MatrixModel
     onSuffixPd (runHistory pd0 (ms ++ [m])) m.n m.m kind entries = onSuffix m kind entries := by
   rw [C08_history_last]
   exact ⟨onPrimalPd_pdOf m xs hl, onSuffixPd_pdOf m kind entries⟩
+
+/-! ## 8. Ties to the definitions GENERATED from the current source (`MpVerif.Gen.C08Easy`, translators/gen_easy_c08.py)
+
+The model functions the theorems above speak about are proved equal to what the translator extracts from
+`nl-solver.cc` on every run; a change of the C++ changes the generated file and these proofs stop checking. -/
+section Gen
+open MpVerif.Gen.C08Easy
+
+/-- the text of every mechanism function is the text the model was written against -/
+theorem C08_gen_skeletons : MpVerif.Gen.C08Easy.skeletons = Expected.skeletons := rfl
+
+/-- what the translated expressions read (which array, which permutation direction), the loop header of `PermuteVars`
+and the statements around its column loop (`stable_sort` with the default `pair` order, the reverse-mapping loop) -/
+theorem C08_gen_leaves :
+    permuteStep_leaves = Expected.permuteStep_leaves ∧ permuteLoop_header = Expected.permuteLoop_header ∧
+    permuteVars_rest = Expected.permuteVars_rest ∧ objLinTerm_leaves = Expected.objLinTerm_leaves ∧
+    objQuadTerm_leaves = Expected.objQuadTerm_leaves ∧ sufTarget_leaves = Expected.sufTarget_leaves ∧
+    primalTarget_leaves = Expected.primalTarget_leaves ∧ feedSufIndex_leaves = Expected.feedSufIndex_leaves := by decide
+
+/-- the model's sort key is the value the generated loop body of `PermuteVars` leaves in `var_perm_[j].first`,
+whatever the cell and the counters held before -/
+theorem C08_gen_key (m : MatrixModel) (j : Nat) (s : Int × Int × Int × Int) : (stepOf m j s).1 = key m j := by
+  rw [stepOf_eq]
+
+/-- running the generated loop body over all columns (in the code's descending order) from zeroed counters yields the
+model's header class counts `nlvoi`, `niv`, `nbv` -/
+theorem C08_gen_header_counts (m : MatrixModel) :
+    ((List.range m.n).reverse.foldl (fun s j => stepOf m j s) (0, 0, 0, 0)).2.1 = nlvoi m ∧
+    ((List.range m.n).reverse.foldl (fun s j => stepOf m j s) (0, 0, 0, 0)).2.2.1 = niv m ∧
+    ((List.range m.n).reverse.foldl (fun s j => stepOf m j s) (0, 0, 0, 0)).2.2.2 = nbv m := by
+  have h := foldl_stepOf m (List.range m.n).reverse (0, 0, 0, 0)
+  simp only [List.countP_reverse, Int.zero_add] at h
+  exact h
+
+/-- `computeObjValue` is the fold of the generated initial value and the two generated `result += …` terms -/
+theorem C08_gen_objvalue (m : MatrixModel) (x : Nat → Rat) :
+    computeObjValue m x =
+      some (((qEntries m).map (fun e => objQuadTerm (qVal m e.2) (x e.1) (x (qCol m e.2)))).foldl (· + ·)
+        (((List.range m.n).reverse.map (fun j => objLinTerm (cCoef m j) (x j))).foldl (· + ·) (objInit m.c0))) := by
+  unfold computeObjValue objQuadTerm objLinTerm objInit
+  have : (fun e : Nat × Nat => qVal m e.2 / 2 * x e.1 * x (qCol m e.2)) =
+      (fun e : Nat × Nat => (1 : Rat) / 2 * qVal m e.2 * x e.1 * x (qCol m e.2)) := by
+    funext e; grind
+  rw [this]
+
+/-- the coefficient written by `FeedObjExpression` is the generated `0.5 * Q.value_[pos]` -/
+theorem C08_gen_objexpr_coef (m : MatrixModel) (e : Nat × Nat) :
+    qTerm m e = .mul (.num (objExprCoef (qVal m e.2))) (.mul (.var (vperm m e.1)) (.var (vperm m (qCol m e.2)))) := by
+  unfold qTerm objExprCoef
+  have : qVal m e.2 / 2 = (1 : Rat) / 2 * qVal m e.2 := by grind
+  rw [this]
+
+theorem C08_gen_suffix_is_var (kind : Nat) :
+    sufIsVar kind = (kind % 4 == 0) ∧ feedSufIsVar kind = (kind % 4 == 0) := by
+  unfold sufIsVar feedSufIsVar
+  rw [and3_eq_mod4]
+  have : decide ((0 : Int) = ((kind % 4 : Nat) : Int)) = (kind % 4 == 0) := by
+    generalize kind % 4 = r
+    by_cases h : r = 0
+    · subst h; rfl
+    · have h' : ¬ (0 : Int) = ((r : Nat) : Int) := by omega
+      rw [decide_eq_false h']
+      exact (beq_eq_false_iff_ne.mpr h).symm
+  exact ⟨this, this⟩
+
+/-- the model's `nmax` (model header: `num_objs = 1`, no logical constraints) is the generated `NItemsMax` -/
+theorem C08_gen_nitemsmax (kind n mrows : Nat) :
+    (((match kind % 4 with | 0 => n | 1 => mrows | _ => 1) : Nat) : Int) = nItemsMax kind n mrows 0 1 := by
+  unfold nItemsMax
+  rw [and3_eq_mod4]
+  have h4 : kind % 4 < 4 := Nat.mod_lt _ (by decide)
+  generalize kind % 4 = r at *
+  match r, h4 with
+  | 0, _ => simp
+  | 1, _ => simp
+  | 2, _ => simp
+  | 3, _ => simp
+
+/-- the index guard of the model is the generated guard `val.first<0 || val.first>=nmax` with the generated `NItemsMax` -/
+theorem C08_gen_bad_index (n mrows kind : Nat) (entries : List (Nat × Rat)) :
+    solSuffixOk n mrows kind entries = entries.all (fun e => !sufBadIndex e.1 (nItemsMax kind n mrows 0 1)) := by
+  have guard_eq : ∀ (a nm : Nat), decide (a < nm) = !(decide ((a : Int) < 0) || decide ((a : Int) ≥ (nm : Int))) := by
+    intro a nm
+    by_cases h : a < nm
+    · have h1 : ¬ ((a : Int) < 0) := by omega
+      have h2 : ¬ ((a : Int) ≥ (nm : Int)) := by omega
+      simp [h, h1, h2]
+    · have h2 : ((a : Int) ≥ (nm : Int)) := by omega
+      simp [h, h2]
+  unfold solSuffixOk sufBadIndex
+  rw [← C08_gen_nitemsmax]
+  dsimp only
+  have h4 : kind % 4 < 4 := Nat.mod_lt _ (by decide)
+  generalize kind % 4 = r at *
+  match r, h4 with
+  | 0, _ => simp only [guard_eq]
+  | 1, _ => simp only [guard_eq]
+  | 2, _ => simp only [guard_eq]
+  | 3, _ => simp only [guard_eq]
+
+/-- un-permutation index arithmetic: the index written by `SOLHandler_Easy::OnSuffix` / `OnPrimalSolution` and by
+`FeedSuffixes`, as the model uses them (`sufTarget_leaves`, `primalTarget_leaves`, `feedSufIndex_leaves` say which
+arrays the parameters stand for: `pd_.vperm_inv_[…]` on the way back, `VPerm(i)` on the way out) -/
+theorem C08_gen_index_arithmetic (kind i invAt permAt : Nat) :
+    (((if kind % 4 == 0 then invAt else i) : Nat) : Int) = sufTarget (sufIsVar kind) invAt i ∧
+    primalTarget (invAt : Int) i = invAt ∧
+    (((if kind % 4 == 0 then permAt else i) : Nat) : Int) = feedSufIndex (feedSufIsVar kind) permAt i := by
+  obtain ⟨h1, h2⟩ := C08_gen_suffix_is_var kind
+  unfold sufTarget primalTarget feedSufIndex
+  rw [h1, h2]
+  cases (kind % 4 == 0) <;> simp
+
+end Gen
 
 /-! ## Non-vacuity -/
 
